@@ -434,7 +434,7 @@ def shards(tier):
     pairs, triples = script_sets(tier)
     nsh = 8 if tier == "quick" else 14
     out = [{"kind": "exhaustive", "part": i, "of": nsh} for i in range(nsh)]
-    out += [{"kind": "hyp", "i": i} for i in range(2 if tier == "quick" else 8)]
+    out += [{"kind": "hyp", "i": i} for i in range(2 if tier == "quick" else 6)]
     out += [{"kind": "fidelity", "i": i} for i in range(1 if tier == "quick" else 4)]
     out += [{"kind": "noise", "part": i} for i in range(len(NOISE_SCRIPTS))]
     # the same with 1100 background connections (more than a thousand other services between two connections of the one under test)
@@ -447,7 +447,7 @@ def shards(tier):
 def run_shard(spec, seed, tier):
     res = ShardResult()
     if spec["kind"] == "hyp":
-        hyp.search(res, st_case(), body, seed, 200 if tier == "quick" else 4000)
+        hyp.search(res, st_case(), body, seed, 200 if tier == "quick" else 2000)
         confirm(res)
         return res
     if spec["kind"] == "fidelity":
